@@ -21,9 +21,9 @@ MANIFEST = dict(
          "channels brought to their states by commitment updates, through both entry points - called directly and as "
          "SetupChannel / SignMutualCloseTx / SignMutualCloseTx2 protocol messages through the ChannelHandler - on every run; every returned "
          "signature is verified with libsecp256k1 against the BIP-143 digest of a closing transaction the harness assembles "
-         "itself, and an independent u128 monitor evaluates the conjunction on every signature.  C07_feerate_estimate_is_source: the feerate estimate of the model IS the source's (estimate_feerate_per_kw translated on every run by tools/gen_rustfn.py into Gen/TxUtilGen.v and proved equal to the model's definition for every u64 fee and non-zero weight, both build profiles).",
+         "itself, and an independent u128 monitor evaluates the conjunction on every signature.  C07_feerate_estimate_is_source: the feerate estimate of the model IS the source's (estimate_feerate_per_kw translated on every run by tools/gen_rustfn.py into Gen/TxUtilGen.v and proved equal to the model's definition for every u64 fee and non-zero weight, both build profiles).  C07_close_rules_are_source: the validator IS the source's - SimpleValidator::validate_mutual_close_tx (whole body) with ::outside_epsilon_range and CommitmentInfo2::htlcs_is_empty is translated statement by statement on every run (Gen/MutualCloseGen.v; validate_fee is the translation of Gen/CommitmentPolicyGen.v; the wallet's answers, the policy filter and the weight of LDK's closing transaction are parameters, the weight instantiated with the model's close_weight) and proved equal to the model's validate_mutual_close on the abstraction of every source-level value, for every wallet, filter and both build profiles, tags and panics included (side condition: the values fit u64; decode_and_validate_mutual_close_tx is not translated).",
     design="§4 C07",
-    note=lib.TB + "Side condition stated in the theorem: max_feerate_per_kw < u32::MAX (u32::MAX means no maximum, "
+    note=lib.TB + "Additionally trusted: tools/gen_rustfn.py and the meaning Base/Rust.v gives to the Rust constructs it reads.  Side condition stated in the theorem: max_feerate_per_kw < u32::MAX (u32::MAX means no maximum, "
          "C07_max_feerate_u32max_is_unlimited).  Modelled, not verified: LDK's ClosingTransaction builder and rust-bitcoin's "
          "transaction weight (both compared with the model on every run by the `build` cases), BIP-143 digest and ECDSA "
          "(parameters of the theorem; exercised by real verification), the wallet's can_spend / allowlist_contains (oracle "
@@ -108,12 +108,27 @@ def run(res):
 
     def regen():
         tx_report.update(gen_rustfn.generate_txutil(lib.REPO))
+        stage["at"] = "close"
+        # Gen/MutualCloseGen.v (validate_mutual_close_tx, outside_epsilon_range, htlcs_is_empty) over the records and the
+        # validate_fee of Gen/CommitmentPolicyGen.v
+        tx_report["commitment_policy"] = gen_rustfn.generate_commitment_policy(lib.REPO)["translated"]
+        tx_report["mutual_close"] = gen_rustfn.generate_mutual_close(lib.REPO)
+    stage = {"at": "txutil"}
     try:
-        lib.proof_stage(res, "C07.v", "Props.C07", PINNED + ["C07_feerate_estimate_is_source"], pre=regen)
+        lib.proof_stage(res, "C07.v", "Props.C07", PINNED + ["C07_feerate_estimate_is_source", "C07_close_rules_are_source"],
+                        pre=regen)
     except gen_rustfn.GenError as e:
-        res.violation("the translator cannot read estimate_feerate_per_kw (a construct outside its fragment): %s" % e,
-                      {"translator": "tools/gen_rustfn.py", "source": "vls-core/src/util/transaction_utils.rs",
-                       "error": str(e), "theorem": "C07_feerate_estimate_is_source"}, has_input=False)
+        if stage["at"] == "txutil":
+            res.violation("the translator cannot read estimate_feerate_per_kw (a construct outside its fragment): %s" % e,
+                          {"translator": "tools/gen_rustfn.py", "source": "vls-core/src/util/transaction_utils.rs",
+                           "error": str(e), "theorem": "C07_feerate_estimate_is_source"}, has_input=False)
+        else:
+            res.violation("the translator cannot read validate_mutual_close_tx / outside_epsilon_range / validate_fee or a "
+                          "declaration or helper they use (a construct outside its fragment): %s" % e,
+                          {"translator": "tools/gen_rustfn.py",
+                           "source": "vls-core/src/policy/simple_validator.rs (+ tx/tx.rs, policy/validator.rs, channel.rs, "
+                                     "wallet.rs, policy/error.rs, util/transaction_utils.rs)",
+                           "error": str(e), "theorem": "C07_close_rules_are_source"}, has_input=False)
     res.coverage["translated_from_source"] = tx_report
     ok, out = lib.build_coq(["theories/Model/MutualCloseCheck.vo"])
     if not ok:
